@@ -105,6 +105,15 @@ func runC02WT(cfg Config, r *Result) {
 		return
 	}
 	defer model.Close()
+	// the specification-driven checker StaticTypes.swt_program (C02_types): how much of the accepted programs lies in the
+	// fragment of the corollary "soundness from the specification's typing rules"; swt accepts => wt accepts is a theorem
+	// (C02_types_program_partial), re-checked here on the extracted code
+	smodel, serr := StartModel("statictypes")
+	if serr != nil {
+		r.Violate(Violation{Kind: "correspondence", Key: "model-start", Detail: serr.Error()})
+		return
+	}
+	defer smodel.Close()
 	r.Rule += "; certificate checker: for every parser-accepted tree (witnesses, corpus, generated) Static.wt and the evaluator are run: Go accepts + wt rejects + evaluator goes wrong = hole in the Go checker; wt accepts inside the proved fragment + evaluator goes wrong = correspondence violation"
 	progs := append([]string{}, c02Witnesses...)
 	progs = append(progs, CorpusPrograms()...)
@@ -141,6 +150,20 @@ func runC02WT(cfg Config, r *Result) {
 		}
 		wt := strings.HasPrefix(ans, "(wt true")
 		s1 := strings.HasPrefix(ans, "(wt true true")
+		if sans, err := smodel.Ask(sx.String()); err != nil || !strings.HasPrefix(sans, "(swt ") {
+			r.Violate(Violation{Kind: "correspondence", Key: "swt-decode", Detail: fmt.Sprint(sans, err), Input: src})
+		} else {
+			switch {
+			case strings.HasPrefix(sans, "(swt true true"):
+				r.Dist("spec-driven checker swt: accepts")
+			case strings.HasPrefix(sans, "(swt true false"):
+				r.Violate(Violation{Kind: "correspondence", Key: "swt-not-wt", Detail: "swt_program accepts, wt_program rejects (contradicts C02_types_program_partial): " + ans, Input: src, Model: sans})
+			case wt:
+				r.Dist("spec-driven checker swt: outside (wt accepts)")
+			default:
+				r.Dist("spec-driven checker swt: outside (wt rejects)")
+			}
+		}
 		reason := strings.TrimSuffix(strings.TrimPrefix(ans, "(wt false "), ")")
 		out := RunEvy(src, RunOpts{YieldBudget: 200000, NoSummary: true, Input: []string{"1", "abc"}})
 		crashed := out.Class == "gopanic" || out.Class == "internal"
